@@ -12,7 +12,7 @@ import (
 )
 
 // C11 — input grammar: accept exactly the documented language, report every violation.
-// All strings up to length L over a 13-character alphabet in each of 26 grammar positions, token words
+// All strings up to length L over a 15-character alphabet (incl. a non-ASCII letter and a line feed) in each of 26 grammar positions, token words
 // in the structured positions, structural truth tables, k-subsets of simultaneous defects, todo exemption.
 
 type c11pos struct {
@@ -101,7 +101,7 @@ func c11positions() []c11pos {
 	}
 }
 
-var c11sigma = []string{"a", "Z", "1", ".", "-", "_", "/", `"`, "*", "&", "{", "}", " "}
+var c11sigma = []string{"a", "Z", "1", ".", "-", "_", "/", `"`, "*", "&", "{", "}", " ", "é", "\n"}
 var c11tok = []string{"&", "*", `"`, "a", "B1", ".", "/", "{}"}
 
 // words enumerates every string over sigma of length 0..max, shorter strings first (so that a time cap leaves a
@@ -197,7 +197,7 @@ func init() {
 	Register(&Check{
 		ID:    "C11",
 		Level: "exploration",
-		Rule: "(1) every string of length <= 3 (quick) / <= 4 (thorough) over {a, Z, 1, ., -, _, /, \", *, &, {, }, space} in each of 26 grammar positions (names, identifiers, import, type, value, constructor, function, getter, decorator, @ / !value / !tagged arguments, scope keyword): verdict = hand-written recogniser, rejection names the offending key; " +
+		Rule: "(1) every string of length <= 3 (quick) / <= 4 (thorough) over {a, Z, 1, ., -, _, /, \", *, &, {, }, space, é, line feed} in each of 26 grammar positions (names, identifiers, import, type, value, constructor, function, getter, decorator, @ / !value / !tagged arguments, scope keyword): verdict = hand-written recogniser, rejection names the offending key; " +
 			"(2) every token word of length <= 4 (quick) / <= 6 (thorough) over {&, *, \", a, B1, ., /, {}} in the 7 structured positions; (3) truth tables: creation rules (2^3 x 2), reserved getters, todo exemption; (4) every 1-, 2- (thorough: 3-) subset of 25 validation-stage defects and of 8 compile-stage defects: all reported in one run, each naming its key. non-trivial = string in the position's language boundary (rejected, or accepted with a non-identifier character); distinct = distinct (position, string)",
 		Assumptions: []string{
 			"the documented grammar is docs/*.md plus internal/pkg/regex/consts.go, re-implemented as hand-written scanners (no regexp)",
